@@ -334,6 +334,80 @@ def run (asIs : Bool) (T : Table) (files : List File) (argv : List Occ) : Except
   let st ← read asIs T (init T) files
   updateFromDict T argv st
 
+/-! ## the entry point `plasTeX.client.main(argv)`: words of the command line
+
+`parser.parse_args(argv)` on the raw words (argparse trusted; modelled on the restricted language: option strings are
+given exactly, values are plain words, no `--opt=value`, no `--`): `-c`/`--config` take one word and are collected in
+order (`action="append"`), every other option string takes the words its class asks for (`store_true/false`: none,
+typed `store`: one, `nargs=2`: two, `nargs='*'`: all following plain words, `nargs='+'`: at least one), the remaining
+plain words are positionals and exactly one (`file`) is required.  Then `config.read(data["config"])` reads the files
+in that order (files that do not exist are ignored), then `config.updateFromDict(data)`. -/
+
+/-- argparse treats a word as an option string when it starts with `-`, is not `-` alone and is not a negative number -/
+def optLike (w : Str) : Bool :=
+  match w with
+  | 45 :: c :: _ => !(isDigit c || c = 46)
+  | _ => false
+
+inductive NArgs | zero | one | two | star | plus
+  deriving DecidableEq, Repr
+
+def nargsOf (o : Opt) : NArgs :=
+  match o.ty with
+  | .atom .bool => .zero
+  | .atom _ => .one
+  | .list => .star
+  | .dict _ true => .plus
+  | .dict _ false => .two
+
+def sDashC : Str := [45, 99]
+def sConfig : Str := [45, 45, 99, 111, 110, 102, 105, 103]
+
+structure Parsed where
+  configs : List Str := []
+  positionals : List Str := []
+  occs : List Occ := []
+  deriving DecidableEq, Repr
+
+/-- the words an option string consumes, and the rest -/
+def takeArgs (n : NArgs) (rest : List Str) : Except Err (List Str × List Str) :=
+  let plain := rest.takeWhile (fun w => !optLike w)
+  let after := rest.dropWhile (fun w => !optLike w)
+  match n with
+  | .zero => pure ([], rest)
+  | .one => match plain with
+    | a :: more => pure ([a], more ++ after)
+    | [] => .error .systemExit                      -- "expected one argument"
+  | .two => match plain with
+    | a :: b :: more => pure ([a, b], more ++ after)
+    | _ => .error .systemExit                       -- "expected 2 arguments"
+  | .star => pure (plain, after)
+  | .plus => if plain.isEmpty then .error .systemExit else pure (plain, after)
+
+/-- `parse_args` on words (fuel = number of words + 1) -/
+def splitArgv (T : Table) : Nat → List Str → Parsed → Except Err Parsed
+  | 0, _, _ => .error .unsupported
+  | _ + 1, [], p => pure { configs := p.configs.reverse, positionals := p.positionals.reverse, occs := p.occs.reverse }
+  | f + 1, w :: rest, p =>
+    if optLike w then
+      if w = sDashC ∨ w = sConfig then do
+        let (args, rest') ← takeArgs .one rest
+        splitArgv T f rest' { p with configs := args ++ p.configs }
+      else match T.find? (owns · w) with
+        | none => .error .systemExit                -- "unrecognized arguments"
+        | some o => do
+          let (args, rest') ← takeArgs (nargsOf o) rest
+          splitArgv T f rest' { p with occs := ⟨w, args⟩ :: p.occs }
+    else splitArgv T f rest { p with positionals := w :: p.positionals }
+
+/-- `client.main(argv)`: the named configuration files that exist, in the order of their `-c`/`--config` options, then the
+    command line.  `fm` = the files that exist, by name. -/
+def mainModel (asIs : Bool) (T : Table) (fm : List (Str × File)) (words : List Str) : Except Err St := do
+  let p ← splitArgv T (words.length + 1) words {}
+  match p.positionals with
+  | [_] => run asIs T (p.configs.filterMap fun n => (fm.find? (·.1 = n)).map (·.2)) p.occs
+  | _ => .error .systemExit                         -- `file` missing, or unrecognized extra words
+
 /-! ## histories: the configuration is a mutable object, read back at any time
 
 Layers may be applied one after the other (`config.read(file)`, `config.updateFromDict(parse_args(argv))`), values may
